@@ -791,6 +791,33 @@ class Walker:
                     and tgt.funcs[0] not in st.stack:
                 return self._for_generator(stmt, st, tgt)
         out = []
+        disp = stmt.iter
+        if isinstance(disp, ast.Name) and isinstance(st.defs.get(disp.id), (ast.Tuple, ast.List)):
+            disp = st.defs[disp.id]
+        if isinstance(disp, (ast.Tuple, ast.List)) and 0 < len(disp.elts) <= 16 and not any(isinstance(e, ast.Starred) for e in disp.elts) \
+                and not all(isinstance(e, ast.Constant) for e in disp.elts) and isinstance(stmt.target, ast.Name):
+            # a display of expressions (functions, bound methods, records): one turn per element, the element evaluated in place
+            cur = [st]
+            for elt in disp.elts:
+                nxt = []
+                for s in cur:
+                    for r in self.eval(elt, s):
+                        if r[0] == "raise":
+                            out.append(("raise", r[1], r[2]))
+                            continue
+                        _, ev_, s1 = r
+                        self._bind(s1, stmt.target, ev_, stmt, defexpr=elt)
+                        for k, v, s2 in self.exec_block(stmt.body, s1):
+                            if k in ("next", "continue"):
+                                nxt.append(s2)
+                            elif k == "break":
+                                out.append(("next", None, s2))
+                            else:
+                                out.append((k, v, s2))
+                cur = nxt
+            for s in cur:
+                out.extend(self.exec_block(stmt.orelse, s))
+            return out
         for r in self.eval(stmt.iter, st):
             if r[0] == "raise":
                 out.append(("raise", r[1], r[2]))
@@ -2105,7 +2132,7 @@ class Walker:
                 s.add(Event("raise", node, val.value, self.frame, "implicit"))
                 return out + [("raise", val.value, s)]
         rv_ = self.cur_recv
-        if val is None and self.exact_loops and isinstance(node.func, ast.Attribute) and rv_ is not None and rv_.kind == "const" \
+        if val is None and self.exact_loops and target.kind != "repo" and isinstance(node.func, ast.Attribute) and rv_ is not None and rv_.kind == "const" \
                 and dotted(node.func.value) != "self" and type(rv_.value) in (str, bytes, int, bool, float) and not hasattr(rv_.value, node.func.attr):
             # "text".items(), (3).strip(): no such method on a value of this type (the rule's own summaries had their say above)
             s.add(Event("raise", node, "AttributeError", self.frame, "implicit"))
